@@ -149,7 +149,7 @@ def run(ctx):
         branches_beyond_bound=skipped,
         bounds=dict(branch_worlds='<= 4', branch_constants='<= 4',
                     arguments='35 family + 50 propositional + 14 fixed specials per logic' if ctx.quick
-                    else 'all family + 550 propositional + 80 random per logic',
+                    else 'all family + 300 propositional + 40 random + 15 fixed + boundary family per logic',
                     seeds=2 if ctx.quick else 4, options='default, group optimisation off, rank optimisation off',
                     max_steps=600),
         solver=stats.asdict(),
